@@ -220,6 +220,14 @@ fn main() {
                 em.case(case, &res, nt);
             }
         }
+        "c14mesh" => {
+            for case in from..to {
+                prog(case, "c14mesh");
+                let res = routes::c14_mesh_case(seed, case);
+                let nt = res.feat("max_parents") >= 3;
+                em.case(case, &res, nt);
+            }
+        }
         "c06sys" => {
             for case in from..to {
                 prog(case, "c06sys");
